@@ -50,7 +50,10 @@ FirstDiff(plan, rec, i) ==
     IF i > Len(plan) /\ i > Len(rec) THEN [at |-> 0, why |-> ""]
     ELSE IF i > Len(plan) \/ i > Len(rec) THEN [at |-> i, why |-> "length"]
     ELSE LET d == EvDiff(plan[i], rec[i]) IN
-         IF d # "" THEN [at |-> i, why |-> d] ELSE FirstDiff(plan, rec, i + 1)
+         \* where today's code lets a foreign exception through, what happens from there on is not specified
+         \* event by event (only the call's result is compared): reported as a structural difference
+         IF d # "" THEN [at |-> i, why |-> IF plan[i].e = "out" /\ ~plan[i].ok /\ ~IsConstructError(plan[i].err) THEN "event-kind" ELSE d]
+         ELSE FirstDiff(plan, rec, i + 1)
 
 
 ResultDiff(cs, r) ==
@@ -62,7 +65,7 @@ ResultDiff(cs, r) ==
                                   ELSE IF Tell(r.s) # cs.res.p THEN "result-pos" ELSE "")
     ELSE (IF VInt(r.v) # cs.res.v THEN "result-value" ELSE "")
 
-Blank == [e |-> "-", k |-> "-", op |-> "-", p |-> 0, ok |-> TRUE, v |-> VNone, err |-> ""]
+Blank == [e |-> "-", k |-> "-", nm |-> "", op |-> "-", p |-> 0, ok |-> TRUE, v |-> VNone, err |-> "", path |-> <<>>]
 \* A verdict carries the first event-level disagreement (why, at, exp, got) and, independently, the
 \* disagreement of the call's observable result (rd): status, value / bytes, final position.
 Verdict(cs) ==
@@ -90,6 +93,13 @@ SessionVerdict(x) ==
                 [] x.clause = "C02.self"  -> C02Self(n, c[1], c[2], c[3])
                 [] x.clause = "C05.exact" -> C05Exact(n, c[1], c[2])
                 [] x.clause = "C05.total" -> C05Total(n, c[1])
+                [] x.clause = "C06.prefix" -> C06Prefix(n, c[1], c[2])
+                [] x.clause = "C06.fault" -> C06Fault(n, c[1], c[2])
+                [] x.clause = "C12.equiv" -> C12Equiv(c[1], c[2])
+                [] x.clause = "C14.verifies" -> C14Verifies(n, c[1], c[2])
+                [] x.clause = "C14.detects" -> C14Detects(n, c[1], c[2])
+                [] x.clause = "C14.samebytes" -> C14SameBytes(n, c[1], c[2])
+                [] x.clause = "C18.trunc" -> C18Trunc(n, c[1], c[2])
     IN [id |-> x.id, st |-> st, at |-> 0, why |-> x.clause, rd |-> "", exp |-> Blank, got |-> Blank]
 
 NC == Len(Cases)
